@@ -13,6 +13,7 @@ import (
 	"strings"
 	"sync"
 
+	metav1 "k8s.io/apimachinery/pkg/apis/meta/v1"
 	"sigs.k8s.io/controller-runtime/pkg/client"
 
 	"verifharness/cfgnf"
@@ -74,10 +75,10 @@ type obs struct {
 }
 
 type rec struct {
-	ID   string `json:"id"`
-	Step int    `json:"step"`
+	ID   string          `json:"id"`
+	Step int             `json:"step"`
 	W    json.RawMessage `json:"w"`
-	Obs  obs    `json:"obs"`
+	Obs  obs             `json:"obs"`
 }
 
 func nsIdx(ns string) int {
@@ -103,6 +104,17 @@ func kindsOf(k string) []string {
 
 func mkListener(name string, port int, l listener, own string) kobj.Listener {
 	kl := kobj.Listener{Name: name, Port: port, Protocol: l.Proto, Kinds: kindsOf(l.Kinds)}
+	switch l.Kinds {
+	case "CoreGroup":
+		g := ""
+		kl.Kinds, kl.KindGroup = []string{"HTTPRoute", "TCPRoute"}, &g
+	case "GwGroup":
+		g := "gateway.networking.k8s.io"
+		kl.Kinds, kl.KindGroup = []string{"HTTPRoute", "TCPRoute"}, &g
+	}
+	expr := func(op metav1.LabelSelectorOperator) []metav1.LabelSelectorRequirement {
+		return []metav1.LabelSelectorRequirement{{Key: "tier", Operator: op, Values: []string{"web"}}}
+	}
 	if l.Host == "own" {
 		kl.Hostname = own
 	}
@@ -118,6 +130,12 @@ func mkListener(name string, port int, l listener, own string) kobj.Listener {
 		kl.From, kl.Selector = "Selector", map[string]string{"tier": "db"}
 	case "SelNil":
 		kl.From, kl.SelNil = "Selector", true
+	case "ExprInWeb":
+		kl.From, kl.Exprs = "Selector", expr(metav1.LabelSelectorOpIn)
+	case "ExprNotInWeb":
+		kl.From, kl.Exprs = "Selector", expr(metav1.LabelSelectorOpNotIn)
+	case "SelWebExprNotWeb":
+		kl.From, kl.Selector, kl.Exprs = "Selector", map[string]string{"tier": "web"}, expr(metav1.LabelSelectorOpNotIn)
 	}
 	return kl
 }
